@@ -114,6 +114,9 @@ theorem applyFrame_unclassifiable (idx : Nat) (f : Frame) (cjs : Bool) {x : Pv}
   have hi : invoke cjs (.panic x o) = .panic x o := by cases cjs <;> simp [invoke, hj]
   have hs : shim (.panic x o) = .panic x o := by simp [shim, jsFrame_unclassifiable _ _ h]
   have hs' : shim (.panic x .other) = .panic x .other := by simp [shim, jsFrame_unclassifiable _ _ h]
+  have hv' : vmTry (.panic x .other) = .panic x .other := by
+    cases x <;> simp [Pv.unclassifiable] at h <;>
+      simp [vmTry, handleThrow, handleThrowLoop, exceptionFromValue]
   rcases recover_unclassifiable h o with hn | ⟨e, rfl, he, hr⟩
   · -- every frame passes x itself
     refine ⟨x, ?_⟩
@@ -135,7 +138,7 @@ theorem applyFrame_unclassifiable (idx : Nat) (f : Frame) (cjs : Bool) {x : Pv}
       cases f <;> simp at hf <;>
         simp [applyFrame, jsFrame_unclassifiable _ _ h, callable_unclassifiable _ h, hr, panicErr, returnErr,
           wrapJSFuncE, wrapJSFuncN, hs, hs', hi, runProgram_eq_runWrapped, runWrapped, vmTry_jsCall, hv, hj,
-          ErrVal.toPv, wrapReflectErr, he, panicValue, hht, hu, Frame.rewraps]
+          ErrVal.toPv, wrapReflectErr, he, panicValue, hht, hu, Frame.rewraps, hv']
 
 /-! ## Segments -/
 
@@ -151,6 +154,7 @@ theorem applyFrame_normal_log (idx : Nat) (f : Frame) (cjs : Bool) :
   · rename_i k
     cases k <;> simp [jsFrame, JsKind.hasFinally]
   · simp [jsFrame, JsKind.hasFinally]
+  · cases cjs <;> simp [callable, invoke, runWrapped, panicErr]
 
 theorem evalSeg_normal (s : Seg) (ijs : Bool) : (evalSeg s .normal ijs).1 = .normal := by
   induction s with
